@@ -18,7 +18,10 @@ EXPLANATION = (
     "grammar automaton (product exploration) and attaches the first popped operand as right, the second as left; "
     "hedges are stored in reading order and applied reversed; Antecedent.activation_degree's dispatch cases "
     "(disabled->0, input->membership of the value, output->aggregated activation, any, and->conjunction, "
-    "or->disjunction) by path-sensitive abstract interpretation; the weight factor; format_infix's spacing alphabet"
+    "or->disjunction) by path-sensitive abstract interpretation; the weight factor; format_infix's spacing alphabet; "
+    "the infix->postfix converter interpreted as a pushdown transducer over token classes and compared with the shunting-yard "
+    "transducer on every operator-stack configuration up to a depth bound (PD: parentheses override, pop rule, output order); "
+    "conjunction/disjunction wiring of all seven activation methods"
 )
 ASSUMPTIONS = ["decides structure and wiring of antecedent evaluation; the numeric value of a particular antecedent is not decided"]
 FLOORS = {"PD": 4, "T1": 2, "G1": 1, "W1": 1, "P9": 7, "P3": 3, "P2": 14, "H1": 2, "F1": 1, "F-end": 1, "X1": 2, "X7": 2}
